@@ -74,10 +74,11 @@ func solveAll(ctx *SMTCtx, obls []*Obligation, dir string, timeoutS int, workers
 					}
 					gv.WriteString("))\n")
 				}
-				text := ctx.assemble(ob.Query)
+				full := ctx.assemble(ob.Query + gv.String())
+				text := strings.TrimSuffix(full, gv.String())
 				ob.Size = len(text)
 				file := filepath.Join(dir, fmt.Sprintf("q%05d.smt2", i))
-				os.WriteFile(file, []byte(text+gv.String()), 0o644)
+				os.WriteFile(file, []byte(full), 0o644)
 				t0 := time.Now()
 				var agree []string
 				for si, s := range solvers {
